@@ -303,6 +303,52 @@ func main() {
 		}
 
 		// ---- content oracle (independent of the code's own sort)
+		if base.N != sc.K || base.C != sc.C || len(base.Peers) != int(sc.K) {
+			r.Violation("wrong-N-or-C:"+shape, fmt.Sprintf("N=%d C=%d len(Peers)=%d want K=%d C=%d", base.N, base.C, len(base.Peers), sc.K, sc.C), wit(map[string]interface{}{"got": base}))
+			return
+		}
+		byIndex := map[uint32]int{}
+		for j, p := range sc.Peers {
+			byIndex[p.Index] = j
+		}
+		selected := map[int]bool{}
+		var selList []int // positions in sc.Peers, in the order of base.Peers
+		okPeers := true
+		for _, p := range base.Peers {
+			j, ok := byIndex[p.Index]
+			if !ok || selected[j] || p.ID != bftkit.KeyID(sc.Peers[j].KeyNo) {
+				okPeers = false
+				break
+			}
+			selected[j] = true
+			selList = append(selList, j)
+		}
+		if !okPeers {
+			r.Violation("peers-not-a-K-subset-of-the-input:"+shape, "Peers has a duplicate, an unknown index or a wrong node id", wit(map[string]interface{}{"got": base.Peers}))
+			return
+		}
+		// "exactly the K highest-staked": no unselected peer may out-stake a selected one
+		// (which of several equal-stake peers at the boundary is taken is not fixed by the statement)
+		minSel, maxUnsel, anyUnsel := ^uint64(0), uint64(0), false
+		for j, p := range sc.Peers {
+			if selected[j] {
+				if p.Stake < minSel {
+					minSel = p.Stake
+				}
+			} else {
+				anyUnsel = true
+				if p.Stake > maxUnsel {
+					maxUnsel = p.Stake
+				}
+			}
+		}
+		if anyUnsel && maxUnsel > minSel {
+			r.Violation("peers-not-the-K-highest-staked:"+shape, fmt.Sprintf("an unselected peer has stake %d, a selected one only %d", maxUnsel, minSel), wit(map[string]interface{}{"got": base.Peers}))
+		}
+		if anyUnsel && maxUnsel == minSel {
+			r.Count("oracle_tie_at_K_boundary")
+		}
+		// observation only: the order/tie-break DESIGN.md expects (stake desc, pubkey desc)
 		exp := append([]int{}, id...)
 		sort.SliceStable(exp, func(x, y int) bool {
 			a, b := sc.Peers[exp[x]], sc.Peers[exp[y]]
@@ -311,58 +357,45 @@ func main() {
 			}
 			return bftkit.KeyID(a.KeyNo) > bftkit.KeyID(b.KeyNo)
 		})
-		exp = exp[:sc.K]
-		if base.N != sc.K || base.C != sc.C || len(base.Peers) != int(sc.K) {
-			r.Violation("wrong-N-or-C:"+shape, fmt.Sprintf("N=%d C=%d len(Peers)=%d want K=%d C=%d", base.N, base.C, len(base.Peers), sc.K, sc.C), wit(map[string]interface{}{"got": base}))
-			return
-		}
-		okPeers := true
-		for j, e := range exp {
-			if base.Peers[j].Index != sc.Peers[e].Index || base.Peers[j].ID != bftkit.KeyID(sc.Peers[e].KeyNo) {
-				okPeers = false
+		for j := range selList {
+			if selList[j] != exp[j] {
+				r.Count("obs_peers_order_differs_from_stake_desc_pubkey_desc")
+				break
 			}
-		}
-		if int(sc.K) < n && sc.Peers[exp[sc.K-1]].Stake == minUnselectedMaxStake(sc, exp) {
-			r.Count("oracle_tie_at_K_boundary")
-		}
-		if !okPeers {
-			r.Violation("peers-not-top-K-by-stake-then-key:"+shape, "Peers differ from the K highest by (stake desc, pubkey desc)", wit(map[string]interface{}{"got": base.Peers}))
 		}
 		cnt := map[uint32]int{}
 		for _, v := range base.PosTable {
 			cnt[v]++
 		}
-		sel := map[uint32]bool{}
-		for _, p := range base.Peers {
-			sel[p.Index] = true
-		}
 		for v := range cnt {
-			if !sel[v] {
+			if j, ok := byIndex[v]; !ok || !selected[j] {
 				r.Violation("postable-has-unselected-index:"+shape, fmt.Sprintf("index %d", v), wit(map[string]interface{}{"posTable": base.PosTable}))
 				break
 			}
 		}
-		if okPeers {
-			for j, e := range exp {
-				ci := cnt[sc.Peers[e].Index]
-				if ci < 1 {
-					r.Violation("selected-peer-without-slot:"+shape, fmt.Sprintf("peer index %d (stake %d) has no slot", sc.Peers[e].Index, sc.Peers[e].Stake), wit(map[string]interface{}{"posTable": base.PosTable}))
-					break
-				}
-				if j > 0 {
-					prev := sc.Peers[exp[j-1]]
-					cp := cnt[prev.Index]
+		byStake := append([]int{}, selList...)
+		sort.SliceStable(byStake, func(x, y int) bool { return sc.Peers[byStake[x]].Stake > sc.Peers[byStake[y]].Stake })
+		for j, e := range byStake {
+			ci := cnt[sc.Peers[e].Index]
+			if ci < 1 {
+				r.Violation("selected-peer-without-slot:"+shape, fmt.Sprintf("peer index %d (stake %d) has no slot", sc.Peers[e].Index, sc.Peers[e].Stake), wit(map[string]interface{}{"posTable": base.PosTable}))
+				break
+			}
+			if j > 0 {
+				prev := sc.Peers[byStake[j-1]]
+				cp := cnt[prev.Index]
+				if prev.Stake == sc.Peers[e].Stake {
+					r.Count("oracle_equal_stake_pair")
+					if cp != ci {
+						r.Violation("equal-stakes-different-slots:"+shape, fmt.Sprintf("stake %d: %d vs %d slots", prev.Stake, cp, ci), wit(map[string]interface{}{"posTable": base.PosTable}))
+						break
+					}
+				} else {
 					if cp < ci {
 						r.Violation("slots-increase-as-stake-decreases:"+shape, fmt.Sprintf("stake %d has %d slots but lower stake %d has %d", prev.Stake, cp, sc.Peers[e].Stake, ci), wit(map[string]interface{}{"posTable": base.PosTable}))
 						break
 					}
-					if prev.Stake == sc.Peers[e].Stake {
-						r.Count("oracle_equal_stake_pair")
-						if cp != ci {
-							r.Violation("equal-stakes-different-slots:"+shape, fmt.Sprintf("stake %d: %d vs %d slots", prev.Stake, cp, ci), wit(map[string]interface{}{"posTable": base.PosTable}))
-							break
-						}
-					} else if cp > ci {
+					if cp > ci {
 						r.Count("oracle_strictly_fewer_slots")
 					}
 				}
@@ -466,6 +499,7 @@ func main() {
 	r.Require("child_processes", int64(nChildProcs))
 	r.Require("order_GetPeersConfig_child_process", 100)
 	r.Assume("valid input = distinct public keys and indices, K <= number of peers, K >= 3C+1, C >= 1, L = K*m with m >= 2, stakes <= ONT total supply (10^9) so that the uint64 stake sum and the float->uint64 rank conversion cannot overflow")
+	r.Assume("'exactly the K highest-staked peers' is checked at set level (no unselected peer out-stakes a selected one); which of several equal-stake peers at the K boundary is taken, and the order of Peers, are only required to be the same for every input order (the (stake desc, pubkey desc) order expected by DESIGN.md is reported as an observation counter)")
 	r.Assume("'slot counts non-increasing in stake' is read as: higher stake => at least as many slots, equal stake => equally many")
 	r.Finish()
 }
@@ -476,25 +510,6 @@ func childOrderMu(f func()) {
 	childMu <- struct{}{}
 	f()
 	<-childMu
-}
-
-// minUnselectedMaxStake returns the largest stake among the peers that were not selected.
-func minUnselectedMaxStake(sc *setCase, selected []int) uint64 {
-	in := map[int]bool{}
-	for _, s := range selected {
-		in[s] = true
-	}
-	var best uint64
-	found := false
-	for i, p := range sc.Peers {
-		if !in[i] && (!found || p.Stake > best) {
-			best, found = p.Stake, true
-		}
-	}
-	if !found {
-		return ^uint64(0)
-	}
-	return best
 }
 
 func head(t []uint32, n int) []uint32 {
